@@ -149,6 +149,9 @@ class BuildError(Exception):
     pass
 
 
+_live = set()          # process groups of running tools (killed by --first-violation once a violation is in)
+
+
 def run(cmd, cwd=None, timeout=None, mem_gb=None, env=None, stdout=None):
     def limits():
         if mem_gb:
@@ -158,6 +161,7 @@ def run(cmd, cwd=None, timeout=None, mem_gb=None, env=None, stdout=None):
     t0 = time.time()
     p = subprocess.Popen(cmd, cwd=cwd, stdout=stdout or subprocess.PIPE,
                          stderr=subprocess.PIPE, preexec_fn=limits, env=env)
+    _live.add(p.pid)
     try:
         out, err = p.communicate(timeout=timeout)
         to = False
@@ -168,6 +172,7 @@ def run(cmd, cwd=None, timeout=None, mem_gb=None, env=None, stdout=None):
             pass
         out, err = p.communicate()
         to = True
+    _live.discard(p.pid)
     ru = resource.getrusage(resource.RUSAGE_CHILDREN)
     return p.returncode, out or b"", err or b"", to, time.time() - t0
 
@@ -638,6 +643,8 @@ def main(argv=None):
     ap.add_argument("--tier", default=os.environ.get("VERIF_TIER", "quick"), choices=["quick", "thorough"])
     ap.add_argument("--jobs", default=None, help="regex: only run matching jobs")
     ap.add_argument("--keep", action="store_true")
+    ap.add_argument("--first-violation", action="store_true",
+                    help="seed re-checking only: stop as soon as one job reports a violation (no evidence is written)")
     ap.add_argument("--replay", default=None)
     ap.add_argument("-P", type=int, default=int(os.environ.get("VF_PAR", "0")))
     ap.add_argument("--no-evidence", action="store_true")
@@ -670,12 +677,24 @@ def main(argv=None):
     try:
         with cf.ThreadPoolExecutor(max_workers=par) as ex:
             futs = {ex.submit(run_job, work, j, set(known)): j for j in jobs}
+            stop_now = False
             for f in cf.as_completed(futs):
+                if stop_now:
+                    continue
                 j = futs[f]
                 try:
                     recs = f.result()
                 except Exception as e:  # noqa
                     recs = [{"job": j.name, "variant": "full", "verdict": "error", "error": repr(e), "role": "property"}]
+                if args.first_violation and any(r.get("kf") is None and r.get("verdict") == "fail" for r in recs):
+                    stop_now = True
+                    for g in futs:
+                        g.cancel()
+                    for pid in list(_live):
+                        try:
+                            os.killpg(pid, 9)
+                        except (ProcessLookupError, PermissionError):
+                            pass
                 for r in recs:
                     r["_job"] = j
                     all_recs.append(r)
@@ -730,7 +749,7 @@ def main(argv=None):
                   (r.get("error") or str(r.get("detail") or ""))[:400].replace("\n", " | ")))
 
         # ---- evidence ------------------------------------------------------
-        if not args.no_evidence and not args.replay and not args.jobs:
+        if not args.no_evidence and not args.replay and not args.jobs and not args.first_violation:
             write_evidence(prop, args.tier, seed, spec, jobs, all_recs, violations, inconclusive, kf_lines,
                            time.time() - t0)
         if violations:
